@@ -127,4 +127,116 @@ theorem filterElem_leaves (exclude : Bool) (fs : List Filter) (e : Elem) :
     · simp only [if_true, Bool.false_eq_true, if_false]
       exact hsub
 
+/-! ### algebraic laws: the order of the filters does not matter; filtering twice is filtering once -/
+
+theorem matchesAny_perm {fs fs' : List Filter} (h : fs.Perm fs') (t : Task) : matchesAny fs t = matchesAny fs' t := by
+  unfold matchesAny
+  exact h.any_eq
+
+theorem filterOutTask_perm {fs fs' : List Filter} (h : fs.Perm fs') (exclude : Bool) (t : Task) :
+    filterOutTask exclude fs t = filterOutTask exclude fs' t := by
+  unfold filterOutTask
+  rw [matchesAny_perm h]
+
+theorem filterOutElem_perm {fs fs' : List Filter} (h : fs.Perm fs') (exclude : Bool) (e : Elem) :
+    filterOutElem exclude fs e = filterOutElem exclude fs' e := by
+  cases e with
+  | leaf t => exact filterOutTask_perm h exclude t
+  | par ts p =>
+    show (if fs.any (fun x => x.matchesElem (.par ts p)) = true then false else !exclude) =
+      (if fs'.any (fun x => x.matchesElem (.par ts p)) = true then false else !exclude)
+    rw [h.any_eq]
+
+theorem filterElem_perm {fs fs' : List Filter} (h : fs.Perm fs') (exclude : Bool) (e : Elem) :
+    filterElem exclude fs e = filterElem exclude fs' e := by
+  unfold filterElem
+  rw [filterOutElem_perm h]
+  cases e with
+  | leaf t => rfl
+  | par ts p =>
+    have : (fun t => !filterOutTask exclude fs t) = (fun t => !filterOutTask exclude fs' t) := by
+      funext t; rw [filterOutTask_perm h]
+    simp only [this]
+
+/-- a task that was kept is kept again -/
+theorem kept_task_is_kept (exclude : Bool) (fs : List Filter) (ts : List Task) :
+    (ts.filter (fun t => !filterOutTask exclude fs t)).filter (fun t => !filterOutTask exclude fs t) =
+      ts.filter (fun t => !filterOutTask exclude fs t) := by
+  rw [List.filter_filter]
+  apply List.filter_congr
+  intro t _; simp
+
+/-- a parallel element of kept tasks (not empty, or empty from the start in exclude mode) is not filtered out -/
+theorem kept_par_not_out (exclude : Bool) (fs : List Filter) (ts : List Task) (p : Nat)
+    (hout : filterOutElem exclude fs (.par ts p) = false) :
+    let kept := ts.filter (fun t => !filterOutTask exclude fs t)
+    (kept ≠ [] ∨ ts = []) → filterOutElem exclude fs (.par kept p) = false := by
+  intro kept hk
+  cases exclude with
+  | true =>
+    -- exclude: an element is never filtered out as a whole
+    simp [filterOutElem]
+  | false =>
+    -- include: every kept task matches a filter, so a non-empty kept list matches
+    rcases hk with hk | hk
+    · obtain ⟨t, ht⟩ := List.exists_mem_of_ne_nil kept hk
+      have htk := List.mem_filter.mp ht
+      have hm : matchesAny fs t = true := by
+        have := htk.2
+        unfold filterOutTask at this
+        cases hmt : matchesAny fs t with
+        | true => rfl
+        | false => simp [hmt] at this
+      unfold matchesAny at hm
+      obtain ⟨f, hf, hft⟩ := List.any_eq_true.mp hm
+      have : fs.any (fun f => f.matchesElem (.par kept p)) = true := by
+        apply List.any_eq_true.mpr
+        exact ⟨f, hf, by simp only [Filter.matchesElem]; exact List.any_eq_true.mpr ⟨t, ht, hft⟩⟩
+      simp [filterOutElem, this]
+    · subst hk
+      have : kept = [] := by simp [kept]
+      rw [this]
+      exact hout
+
+theorem filterElem_idem (exclude : Bool) (fs : List Filter) (e e' : Elem) (h : filterElem exclude fs e = some e') :
+    filterElem exclude fs e' = some e' := by
+  unfold filterElem at h
+  cases hout : filterOutElem exclude fs e with
+  | true => simp [hout] at h
+  | false =>
+    simp only [hout, Bool.false_eq_true, if_false] at h
+    cases e with
+    | leaf t =>
+      injection h with h; subst h
+      simp [filterElem, hout]
+    | par ts p =>
+      simp only at h
+      split at h
+      · simp at h
+      · rename_i hcond
+        injection h with h; subst h
+        have hk : ts.filter (fun t => !filterOutTask exclude fs t) ≠ [] ∨ ts = [] := by
+          by_cases hts : ts = []
+          · exact Or.inr hts
+          · left
+            intro hke
+            apply hcond
+            simp [hke, hts]
+        have hout' := kept_par_not_out exclude fs ts p hout hk
+        unfold filterElem
+        simp only [hout', Bool.false_eq_true, if_false]
+        rw [kept_task_is_kept]
+        have : ¬ (((ts.filter (fun t => !filterOutTask exclude fs t)).isEmpty && !(ts.filter (fun t => !filterOutTask exclude fs t)).isEmpty) = true) := by
+          cases (ts.filter (fun t => !filterOutTask exclude fs t)).isEmpty <;> simp
+        simp [this]
+
+theorem filterMap_idem {α : Type} (f : α → Option α) (hf : ∀ a b, f a = some b → f b = some b) (l : List α) :
+    (l.filterMap f).filterMap f = l.filterMap f := by
+  induction l with
+  | nil => rfl
+  | cons a l ih =>
+    cases hfa : f a with
+    | none => simp [List.filterMap_cons, hfa, ih]
+    | some b => simp [List.filterMap_cons, hfa, hf a b hfa, ih]
+
 end TrackFilter
